@@ -197,6 +197,19 @@ class Recorder:
         _active.remove(self)
 
 
+def rec_fs(rec):
+    """an fsspec file system object (local) whose open() goes through the recorder's wrapper: `open_with=fs.open` then gives the
+    ParquetFile a `.fs` (as pandas / dask do), so that code paths that list, remove or rename through the file system object run;
+    what they remove / rename is seen by the audit hook"""
+    from fsspec.implementations.local import LocalFileSystem
+
+    class RecFS(LocalFileSystem):
+        def open(self, path, mode="rb", **kw):
+            return rec.open_with(self._strip_protocol(path), mode)
+
+    return RecFS(skip_instance_cache=True)
+
+
 class _Handle:
     def __init__(self, rec, f, relp):
         self._rec, self._f, self._p = rec, f, relp
